@@ -49,6 +49,13 @@ func unmarshalC15VarAuth(b []byte) (chain.Auth, error) {
 	return &c15VarAuth{payload: append([]byte{}, b[1:]...)}, nil
 }
 
+// c15Factory "signs" with a fixed auth (any registered auth type).
+type c15Factory struct{ a chain.Auth }
+
+func (f *c15Factory) Sign([]byte) (chain.Auth, error) { return f.a, nil }
+func (f *c15Factory) MaxUnits() (uint64, uint64)       { return uint64(len(f.a.Bytes())), 1 }
+func (f *c15Factory) Address() codec.Address           { return f.a.Actor() }
+
 type c15 struct {
 	r      *verifh.Run
 	parser *chain.TxTypeParser
@@ -69,6 +76,10 @@ func TestVerifC15(t *testing.T) {
 	}
 	for _, l := range lines {
 		f := verifh.Fields(l)
+		if len(f) == 3 && (f[0] == "rtx" || f[0] == "rblock" || f[0] == "rbatch") {
+			h.opResign(l, f)
+			continue
+		}
 		if len(f) != 2 {
 			r.Emit(l, "bad-op")
 			continue
@@ -347,6 +358,104 @@ func (h *c15) opXBlock(l string, b []byte) {
 	h.checkInner(txs)
 	if eb.Block != nil && eb.Block.GetID() != utils.ToID(eb.Block.GetBytes()) {
 		h.r.Violation("block-id-not-hash", "block inside executed block %x", b)
+	}
+}
+
+// opResign: parse a tx / block / batch, call the public API on the parsed value — above all
+// Sign() on each parsed transaction's data with another auth factory — and then look at the parsed
+// value again: its bytes, size and ID must still be the accepted input and its hash
+// (`accepted-bytes-mutated`), and every re-signed transaction must be the canonical encoding of the
+// same body with the new auth (`resign-not-canonical`).
+func (h *c15) opResign(l string, f []string) {
+	in, err1 := verifh.UnHex(f[1])
+	ab, err2 := verifh.UnHex(f[2])
+	if err1 != nil || err2 != nil {
+		h.r.Emit(l, "bad-op")
+		return
+	}
+	out := ""
+	defer func() {
+		if p := recover(); p != nil {
+			h.r.Emit(l, "panic")
+			h.r.Violation("decoder-panic", "%s panics: %v", f[0], p)
+		}
+	}()
+	orig := append([]byte{}, in...) // pristine copy of the accepted input
+	newAuth, aerr := h.parser.ParseAuth(ab)
+	var (
+		txs    []*chain.Transaction
+		cur    func() []byte
+		curID  func() ids.ID
+		perr   error
+		blk    *chain.StatelessBlock
+		single *chain.Transaction
+	)
+	switch f[0] {
+	case "rtx":
+		single, perr = chain.UnmarshalTx(in, h.parser)
+		if perr == nil {
+			txs = []*chain.Transaction{single}
+			cur, curID = single.Bytes, single.GetID
+		}
+	case "rblock":
+		blk, perr = chain.UnmarshalBlock(in, h.parser)
+		if perr == nil {
+			txs = blk.Txs
+			cur, curID = blk.GetBytes, blk.GetID
+		}
+	default:
+		s := &chain.BatchedTransactionSerializer{Parser: h.parser}
+		txs, perr = s.Unmarshal(in)
+		if perr == nil {
+			t2 := txs
+			cur = func() []byte { return s.Marshal(t2) }
+		}
+	}
+	if perr != nil || aerr != nil {
+		h.r.Emit(l, "err")
+		return
+	}
+	// snapshot of every parsed transaction before any further API call
+	type snap struct {
+		bytes []byte
+		id    ids.ID
+	}
+	snaps := make([]snap, len(txs))
+	for i, tx := range txs {
+		snaps[i] = snap{append([]byte{}, tx.Bytes()...), tx.GetID()}
+	}
+	fac := &c15Factory{a: newAuth}
+	var rs []byte
+	for _, tx := range txs {
+		_, _ = tx.MarshalJSON()
+		_ = tx.UnsignedBytes()
+		resigned, err := tx.TransactionData.Sign(fac)
+		if err != nil {
+			panic(err)
+		}
+		want, _ := chain.NewTransaction(tx.Base, tx.Actions, newAuth)
+		if !bytes.Equal(resigned.Bytes(), want.Bytes()) || resigned.GetID() != utils.ToID(resigned.Bytes()) {
+			h.r.Violation("resign-not-canonical", "re-signed parsed tx is %x, want %x", resigned.Bytes(), want.Bytes())
+		}
+		rs = append(rs, resigned.Bytes()...)
+	}
+	out = fmt.Sprintf("ok cur=%s rs=%s", verifh.Hex(cur()), verifh.Hex(rs))
+	h.r.Emit(l, out)
+	h.r.Distinct(l)
+	// the oracle: the parsed values still are the accepted input
+	if !bytes.Equal(cur(), orig) {
+		h.r.Violation("accepted-bytes-mutated", "%s: after Sign() on the parsed tx data the parsed value's bytes are %x, accepted input was %x", f[0], cur(), orig)
+	}
+	if curID != nil && curID() != utils.ToID(orig) {
+		h.r.Violation("accepted-bytes-mutated", "%s: id is no longer the hash of the accepted input %x", f[0], orig)
+	}
+	for i, tx := range txs {
+		if !bytes.Equal(tx.Bytes(), snaps[i].bytes) || tx.GetID() != snaps[i].id || tx.GetID() != utils.ToID(tx.Bytes()) || tx.Size() != len(tx.Bytes()) {
+			h.r.Violation("accepted-bytes-mutated", "%s: parsed tx %d changed from %x to %x (id %s)", f[0], i, snaps[i].bytes, tx.Bytes(), tx.GetID())
+		}
+	}
+	if !bytes.Equal(in, orig) {
+		h.r.Violation("accepted-bytes-mutated", "%s: the caller's input buffer was overwritten", f[0])
 	}
 }
 
@@ -764,6 +873,13 @@ func (h *c15) generate() []string {
 	add("result", []byte{0x08, 0x02}) // invalid bool
 	add("xblock", chain.NewExecutedBlock(wb, []*chain.Result{{Success: true, Fee: 1}}, fees.Dimensions{1}, fees.Dimensions{}).MarshalCanoto())
 
+	// parse, then Sign() the parsed transaction data again, then look at the parsed value again
+	au1 := &chaintest.TestAuth{NumComputeUnits: 77, ActorAddress: codec.Address{4, 5}, SponsorAddress: codec.Address{6}, Start: -1, End: -1}
+	add3 := func(kind string, b []byte, a []byte) { lines = append(lines, kind+" "+verifh.Hex(b)+" "+verifh.Hex(a)) }
+	add3("rtx", good.Bytes(), au1.Bytes())
+	add3("rblock", wb.GetBytes(), au1.Bytes())
+	add3("rbatch", (&chain.BatchedTransactionSerializer{}).Marshal([]*chain.Transaction{good, good}), au1.Bytes())
+
 	// ---- structured values and their mutations
 	n := h.r.N(2500, 40000)
 	for i := 0; i < n; i++ {
@@ -793,6 +909,9 @@ func (h *c15) generate() []string {
 			kind, b = "xblock", eb.MarshalCanoto()
 		}
 		add(kind, b)
+		if (kind == "tx" || kind == "block" || kind == "batch") && h.rng().Chance(25) {
+			add3("r"+kind, b, h.randAuth().Bytes())
+		}
 		for j := h.rng().Intn(5); j > 0; j-- {
 			m := h.mutate(b, 0)
 			if h.rng().Chance(20) {
